@@ -254,6 +254,11 @@ func (x *Exec) wantSort(env *CEnv, t Term, s, what string) {
 }
 
 func (x *Exec) cident(env *CEnv, name, want string) Term {
+	if r, ok := x.rename[name]; ok {
+		if _, bound := env.names[name]; !bound {
+			name = r
+		}
+	}
 	switch name {
 	case "true":
 		return tTrue
